@@ -525,20 +525,54 @@ func initReflect(i *interpreter) {
 	}
 
 	i.rtypeMethods = methodSet{
-		"Bits":      newMethod(i.reflectPackage, rtypeType, "Bits"),
-		"Elem":      newMethod(i.reflectPackage, rtypeType, "Elem"),
-		"Field":     newMethod(i.reflectPackage, rtypeType, "Field"),
-		"In":        newMethod(i.reflectPackage, rtypeType, "In"),
-		"Kind":      newMethod(i.reflectPackage, rtypeType, "Kind"),
-		"NumField":  newMethod(i.reflectPackage, rtypeType, "NumField"),
-		"NumIn":     newMethod(i.reflectPackage, rtypeType, "NumIn"),
-		"NumMethod": newMethod(i.reflectPackage, rtypeType, "NumMethod"),
-		"NumOut":    newMethod(i.reflectPackage, rtypeType, "NumOut"),
-		"Out":       newMethod(i.reflectPackage, rtypeType, "Out"),
-		"Size":      newMethod(i.reflectPackage, rtypeType, "Size"),
-		"String":    newMethod(i.reflectPackage, rtypeType, "String"),
+		"Bits":       newMethod(i.reflectPackage, rtypeType, "Bits"),
+		"Elem":       newMethod(i.reflectPackage, rtypeType, "Elem"),
+		"Field":      newMethod(i.reflectPackage, rtypeType, "Field"),
+		"In":         newMethod(i.reflectPackage, rtypeType, "In"),
+		"Kind":       newMethod(i.reflectPackage, rtypeType, "Kind"),
+		"NumField":   newMethod(i.reflectPackage, rtypeType, "NumField"),
+		"NumIn":      newMethod(i.reflectPackage, rtypeType, "NumIn"),
+		"NumMethod":  newMethod(i.reflectPackage, rtypeType, "NumMethod"),
+		"NumOut":     newMethod(i.reflectPackage, rtypeType, "NumOut"),
+		"Out":        newMethod(i.reflectPackage, rtypeType, "Out"),
+		"Size":       newMethod(i.reflectPackage, rtypeType, "Size"),
+		"String":     newMethod(i.reflectPackage, rtypeType, "String"),
+		"Name":       newMethod(i.reflectPackage, rtypeType, "Name"),
+		"PkgPath":    newMethod(i.reflectPackage, rtypeType, "PkgPath"),
+		"Key":        newMethod(i.reflectPackage, rtypeType, "Key"),
+		"Len":        newMethod(i.reflectPackage, rtypeType, "Len"),
+		"Comparable": newMethod(i.reflectPackage, rtypeType, "Comparable"),
 	}
 	i.errorMethods = methodSet{
 		"Error": newMethod(i.reflectPackage, errorType, "Error"),
+	}
+}
+
+func init() {
+	externals["(reflect.rtype).Name"] = func(fr *frame, args []value) value {
+		switch t := args[0].(rtype).t.(type) {
+		case *types.Named:
+			return t.Obj().Name()
+		case *types.Basic:
+			return t.Name()
+		case *types.Alias:
+			return t.Obj().Name()
+		}
+		return ""
+	}
+	externals["(reflect.rtype).PkgPath"] = func(fr *frame, args []value) value {
+		if t, ok := args[0].(rtype).t.(*types.Named); ok && t.Obj().Pkg() != nil {
+			return t.Obj().Pkg().Path()
+		}
+		return ""
+	}
+	externals["(reflect.rtype).Key"] = func(fr *frame, args []value) value {
+		return makeReflectType(rtype{args[0].(rtype).t.Underlying().(*types.Map).Key()})
+	}
+	externals["(reflect.rtype).Len"] = func(fr *frame, args []value) value {
+		return int(args[0].(rtype).t.Underlying().(*types.Array).Len())
+	}
+	externals["(reflect.rtype).Comparable"] = func(fr *frame, args []value) value {
+		return types.Comparable(args[0].(rtype).t)
 	}
 }
